@@ -122,12 +122,16 @@ def check_case(case, ctx):
 
     def observe(step, op):
         ctx.count("observations")
-        m = _symbolic_mode.get()
         rm = ref_mode()
-        if m != rm or in_symbolic_mode() != (rm is not None):
+        # public observation first: in_symbolic_mode() / in_symbolic_mode(mode)
+        if in_symbolic_mode() != (rm is not None) or (rm is not None and not in_symbolic_mode(rm)):
+            return {"what": "MODE", "observed": {"in_symbolic_mode": in_symbolic_mode()}, "expected": repr(rm)}
+        m = _symbolic_mode.get()
+        if m != rm:
             return {"what": "MODE", "observed": repr(m), "expected": repr(rm)}
         d = len(SymbolicExpression._symbolic_expression_stack_)
-        if d != ref_depth():
+        cur = SymbolicExpression._current_parent_()
+        if d != ref_depth() or (cur is None) != (ref_depth() == 0):
             return {"what": "EXPRESSION_STACK_DEPTH", "observed": d, "expected": ref_depth()}
         o = B(9)
         if (rm is None) != (type(o) is B):
